@@ -44,6 +44,7 @@ theorem inv_step (O : TrieOps T) (hre : ∀ t, O.reopen (O.rootOf t) = t) (h32 :
       simp only [Option.some.injEq] at hs; subst hs
       exact inv_restart O hre h32 s hi m' hm
     · simp only [Option.some.injEq] at hs; subst hs; exact hi
+  | flush ok => simp only [step, Option.some.injEq] at hs; subst hs; exact hi
   | validated sr v =>
     simp only [step] at hs
     split at hs
@@ -130,6 +131,7 @@ theorem chain_sub (O : TrieOps T) (ops : List Op) : ∀ (s s' : St T), run O s o
           split at hs
           · simp only [Option.some.injEq] at hs; subst hs; exact Or.inl h1
           · simp only [Option.some.injEq] at hs; subst hs; exact Or.inl h1
+        | flush ok => simp only [step, Option.some.injEq] at hs; subst hs; exact Or.inl h1
         | validated sr v =>
           simp only [step] at hs
           split at hs
